@@ -17,7 +17,7 @@ CLAUSES = ["C18.noraise", "C18.flowdemux", "C18.fibdemux", "C18.switch", "C18.hu
 RULE = ("FlowDemux: every (len(outs) in 0..3, default?, flow in 0..4); FIBDemux: every table flows{0,1,2}->ports{0,1,2,7} "
         "incl. the empty table x ends maps x default x outs None/[]/list; switches with nports<=3; Hub: 2-4 endpoints x 4 "
         "construction styles x every sender; splitters: every connection pattern; FatTree: structure for k in 2..8(12), "
-        "every (src,dst,path) the owned sample() can return for k=2,4, with/without tcp, flow pairs, simulated with bare "
+        "every (src,dst,path) the owned sample() can return for k=2,4 (k=6: for the sources listed in bound), with/without tcp, flow pairs, simulated with bare "
         "demux+port nodes and with FairPacketSwitch(WFQ) nodes sharing one class; non-trivial = the packet had >= 2 "
         "candidate outputs or the flows share a directed link; distinct = distinct (configuration, delivery map)")
 ASSUMPTIONS = [
@@ -53,9 +53,18 @@ def plan(tier, seed):
             cfgs.append(dict(shape="ft", k=4, nflows=2, tcp=1, node=node, first=240))
     else:
         cfgs.append(dict(shape="ft", k=4, nflows=2, tcp=1, node="fair", first=16))
+    # k >= 6 is the first size at which a host pair in one pod has simple paths within the diameter that are not shortest
+    # paths (round 5): every (dst, path) for the first 10 sources (two pods) in the quick tier, all 2862 pairs / one source of k=8 in thorough
+    if quick:
+        cfgs.append(dict(shape="ft", k=6, nflows=1, tcp=0, node="bare", first=530))
+        cfgs.append(dict(shape="ft", k=6, nflows=1, tcp=1, node="fair", first=53))
+    else:
+        for tcp, node in ((0, "bare"), (1, "fair")):
+            cfgs.append(dict(shape="ft", k=6, nflows=1, tcp=tcp, node=node))
+        cfgs.append(dict(shape="ft", k=8, nflows=1, tcp=1, node="bare", first=127))
     return {"cfgs": cfgs, "budget": None,
             "bound": "FlowDemux/FIBDemux/switch/hub/splitter grids complete as listed in rule; FatTree k<=%d structure; k=2 all flow "
-                     "triples, k=4 all 848 single flows x tcp x 2 node kinds, k=4 flow pairs with the first flow among the first %d choices" % (8 if quick else 12, 16 if quick else 240)}
+                     "triples, k=4 all 848 single flows x tcp x 2 node kinds, k=4 flow pairs with the first flow among the first %d choices; k=6 every (dst, path) for %s" % (8 if quick else 12, 16 if quick else 240, "the first 10 sources (1 with tcp/fair nodes)" if quick else "all 2862 host pairs x {plain/bare, tcp/fair}, k=8 for one source")}
 
 
 def execute(ch, cfg):
